@@ -270,6 +270,37 @@ def run_case(c, stats):
                     continue
                 for w in words(ra.alpha | rb.alpha, 2):
                     judge_translate(r, rr, w, sub="translate_of_result")
+    if not bad and c["a"]["trans"] and not c.get("nested"):
+        # results and operands are separate objects: an operand edited after the operation (a second output for a
+        # (state, input) pair it already has) leaves the result as it was, and the other way round
+        A2 = gfst.build(c["a"])
+        B2 = A2 if c["b"] is None else gfst.build(c["b"])
+        p_, a_, q_, _o = c["a"]["trans"][0]
+        src, dst = gfst.sval(c["a"], p_), gfst.sval(c["a"], q_)
+        sym = "epsilon" if a_ < 0 else (c["a"].get("ins") or gfst.INS)[a_]
+        for op in ("union", "concatenate", "kleene_star"):
+            ok, r = call(getattr(A2, op), *(() if op == "kleene_star" else (B2,)))
+            if not ok:
+                continue
+            with core.oracle_mode():
+                rr_before = extract.fst(r)
+                ra_before = extract.fst(A2)
+            call(A2.add_transition, src, sym, dst, ["edit_%s" % op])
+            with core.oracle_mode():
+                core.LOG.count("C16.edit_after_operation")
+                if not rr_before.eps_cycle_writes():
+                    for w in words(ra.alpha | rb.alpha, 2):
+                        judge_translate(r, rr_before, w, sub="result_after_operand_edit")
+            # ... and an edit of the result (every transition head it has gets a second output)
+            with core.oracle_mode():
+                ra_now = extract.fst(A2)
+                heads = list(rr_before.trans)[:4]
+            for (p2, a2, q2, o2) in heads:
+                call(r.add_transition, p2, "epsilon" if a2 == rf.EPS else a2, q2, ["edit_result"])
+            with core.oracle_mode():
+                if not ra_now.eps_cycle_writes():
+                    for w in words(ra.alpha, 2):
+                        judge_translate(A2, ra_now, w, sub="operand_after_result_edit")
     if "fa" in c:
         fa = gfa.build(c["fa"])
         ok, t = call(fa.to_fst)
